@@ -170,25 +170,10 @@ func ruleRefTable(c *Ctx, rule string) {
 		c.undecided(rule, "Ref:withChannel-store", "Ref does not store withChannel")
 		return
 	}
-	// every path through Ref must apply the update: evaluate the field value at each return
+	// the field's value when Ref returns, for every assignment of (isArg, old flag, isWait): the last store on the path
+	// taken, or the old value when the path stores nothing
 	for _, ret := range returnsOf(ref) {
-		// the last store dominating the return
-		var last *ssa.Store
-		for _, s := range stores {
-			if instrDominates(s, ret) {
-				last = s
-			}
-		}
-		if last == nil {
-			// a return not preceded by a store keeps the old value: sticky holds, but a wait may be lost
-			rows, ids, err := truthTable(L, ref.Blocks[0], ret, ssa.Value(nil))
-			_ = rows
-			_ = ids
-			_ = err
-			c.check(false, rule, "Ref:return-without-update", L.pos(ref.Pos()), "every path through Ref updates the channel flag", fmt.Sprintf("return in block %d is not dominated by a store", ret.Block().Index))
-			continue
-		}
-		rows, ids, err := truthTable(L, ref.Blocks[0], last, last.Val)
+		rows, ids, err := truthTableTracking(L, ref.Blocks[0], ret, nil, "internal/kessoku.InjectorParam.withChannel")
 		if err != "" {
 			c.undecided(rule, "Ref:table", err)
 			continue
@@ -204,28 +189,34 @@ func ruleRefTable(c *Ctx, rule string) {
 				wait = id
 			}
 		}
-		if isArg == "" || old == "" || wait == "" {
-			c.undecided(rule, "Ref:atoms", fmt.Sprintf("cannot identify isArg/withChannel/isWait among %v", ids))
+		if isArg == "" || wait == "" {
+			c.undecided(rule, "Ref:atoms", fmt.Sprintf("cannot identify isArg/isWait among %v", ids))
 			continue
 		}
 		bad := ""
 		n := 0
 		for _, r := range rows {
 			if !r.reached {
-				// the store is skipped under this assignment: then the old value stays; a lost wait if wait && !isArg && !old
-				if r.atoms[wait].b && !r.atoms[isArg].b && !r.atoms[old].b {
-					bad = "store skipped for " + rowString(r, ids)
-				}
 				continue
 			}
 			n++
-			want := !r.atoms[isArg].b && (r.atoms[old].b || r.atoms[wait].b)
-			if r.result.b != want {
-				bad = rowString(r, ids) + fmt.Sprintf(" gives %v, want %v", r.result.b, want)
+			olds := []bool{false, true}
+			if old != "" {
+				olds = []bool{r.atoms[old].b}
+			}
+			for _, o := range olds {
+				got := o
+				if r.stored {
+					got = r.storedVal.b
+				}
+				want := !r.atoms[isArg].b && (o || r.atoms[wait].b)
+				if got != want {
+					bad = rowString(r, ids) + fmt.Sprintf(" (old=%v) leaves %v, want %v", o, got, want)
+				}
 			}
 		}
-		c.check(bad == "" && n > 0, rule, "Ref:sticky-channel-flag", L.pos(last.Pos()),
-			"withChannel' = !isArg && (withChannel || isWait): once some consumer waits, the parameter keeps its done-channel", fmt.Sprintf("%d assignments enumerated; counterexample: %s", n, bad))
+		c.check(bad == "" && n > 0, rule, "Ref:sticky-channel-flag", L.pos(ref.Pos()),
+			"after Ref: withChannel = !isArg && (withChannel || isWait): once some consumer waits, the parameter keeps its done-channel", fmt.Sprintf("%d assignments enumerated to the return in block %d; counterexample: %s", n, ret.Block().Index, bad))
 	}
 	if wc := genFn(c, rule, "(*InjectorParam).WithChannel"); wc != nil {
 		s := newSym(L, map[string]bool{})
